@@ -69,6 +69,9 @@ func cmdStopFlush(f hx.Flags, r *hx.Result) {
 				continue
 			}
 			for _, cnt := range counts {
+				if hx.Stopped() {
+					break
+				}
 				n++
 				dir := filepath.Join(tmp, fmt.Sprintf("d%d", n))
 				_ = os.MkdirAll(dir, 0o755)
@@ -158,10 +161,10 @@ func cmdStopFlush(f hx.Flags, r *hx.Result) {
 					continue
 				}
 				t0 := time.Now()
-				ret, pv = hx.Within(20*time.Second, func() { log.Destroy() })
+				ret, pv = hx.Within(10*time.Second, func() { log.Destroy() })
 				el := time.Since(t0)
 				if !ret {
-					r.Violate("blocked:destroy:"+kind, desc, "Destroy did not return within 20 s")
+					r.Violate("blocked:destroy:"+kind, desc, "Destroy did not return within 10 s")
 					log.VerifReset()
 					continue
 				}
